@@ -206,7 +206,8 @@ func (c caseT) name() string {
 }
 
 func (c caseT) scenario(exp map[string]result) *dsched.Scenario {
-	fine := finePoints
+	// the overflow kinds execute about a thousand instructions per invocation: coarse points for them
+	fine := finePoints && !contains(c.H, "callover") && !contains(c.H, "overflow")
 	envs := []func(x *dsched.Exec, st any){}
 	if c.CancelAt >= 0 {
 		envs = append(envs, func(x *dsched.Exec, sti any) {
@@ -426,6 +427,13 @@ func Check(r *ev.Run, replay string) {
 			b := bound
 			if len(c.H) >= 4 {
 				b = 1
+			}
+			if b > 1 && len(c.H) >= 3 {
+				for _, k := range c.H {
+					if k == "callfail" || k == "callpanic" || k == "callimport" || k == "callover" {
+						b = 1 // thorough: the histories of three invocations with one of the late kinds get one deviation
+					}
+				}
 			}
 			st := dsched.Explore(c.scenario(exp), b, limit)
 			nc++
